@@ -243,9 +243,24 @@ func (w *World) genDigest(stream string, n int) []byte {
 
 // genChunks draws a read-size schedule.
 func (w *World) genChunks(stream string) []int {
-	switch w.t.Choose(stream, "dev.delivery", 8) {
+	switch w.t.Choose(stream, "dev.delivery", 9) {
 	case 0, 1, 2:
 		return nil // full reads
+	case 8:
+		// a long run of empty reads "(0, nil)" - legal for an io.Reader,
+		// discouraged, and exactly what retry counters are written against -
+		// after 0..31 bytes have arrived; then the rest in one piece
+		first := w.t.Choose(stream, "dev.emptyrun.after", 32)
+		run := []int{4, 17, 99, 100, 101, 300}[w.t.Choose(stream, "dev.emptyrun.len", 6)]
+		out := make([]int, 0, run+2)
+		if first > 0 {
+			out = append(out, first)
+		}
+		for i := 0; i < run; i++ {
+			out = append(out, 0)
+		}
+		w.r.Fault("long_run_of_empty_reads")
+		return append(out, 64)
 	case 3:
 		return []int{1}
 	case 4:
